@@ -350,8 +350,9 @@ func TestVerif_C20(t *testing.T) {
 			mode := []string{"include", "exclude"}[k%2]
 			var sel vSel
 			switch {
-			case k < 2*len(vSelPool):
-				sel = vSel{Mode: mode, Pats: vSelPats(vSelPool[(k/2+ti*7)%len(vSelPool)]), IPats: []vSelPat{}} // every single pattern in both modes
+			case k < perTree/2:
+				// sweep: every single pattern of the pool in both modes (quick: spread over the trees)
+				sel = vSel{Mode: mode, Pats: vSelPats(vSelPool[(k/2+ti*(perTree/4))%len(vSelPool)]), IPats: []vSelPat{}}
 			case k%29 == 0:
 				sel = vSel{Mode: "none", Pats: []vSelPat{}, IPats: []vSelPat{}}
 			default:
